@@ -1328,12 +1328,15 @@ class Interp:
             # a loop over a table of rows written in place,
             #     for key, value in (('sender', sender), ...):
             # is the same as its body written out once per row
-            if isinstance(s.iter, (ast.Tuple, ast.List)) and \
-                    0 < len(s.iter.elts) <= 12 and \
-                    all(isinstance(e, (ast.Tuple, ast.List))
-                        for e in s.iter.elts) and \
-                    kind(it) in ('tuple', 'list') and \
-                    len(it[1]) == len(s.iter.elts) and \
+            literal = isinstance(s.iter, (ast.Tuple, ast.List)) and \
+                all(isinstance(e, (ast.Tuple, ast.List))
+                    for e in s.iter.elts)
+            # ... and so is a loop over a local list whose rows are all
+            # known on this path (built by a literal and appends)
+            built = isinstance(s.iter, ast.Name) and kind(it) == 'list' and \
+                all(kind(x) == 'item' for x in it[1])
+            if (literal or built) and kind(it) in ('tuple', 'list') and \
+                    0 < len(it[1]) <= 12 and \
                     all(kind(x) in ('tuple', 'list') or
                         (kind(x) == 'item' and kind(x[1]) in ('tuple', 'list'))
                         for x in it[1]):
@@ -1538,6 +1541,13 @@ class Interp:
                 return self._stack[0].cls
         if k == 'inst':
             return self.prog.all_classes.get(b[1])
+        if b == ('free', 'self') and self._stack:
+            # `self` captured by a closure defined inside a method
+            f = self._stack[0]
+            while f is not None and f.cls is None:
+                f = getattr(f, 'parent', None)
+            if f is not None:
+                return self.self_cls or f.cls
         return None
 
     def getattr_term(self, b, attr, st):
